@@ -544,7 +544,7 @@ pub fn all_iterator_histories(l: &mut Local, bytes: &[u8], depth: u32) -> usize 
 /// through the space): the round-trip properties speak of "the same blocks / chunks / entries in the same order",
 /// which must hold however the iterators are driven.
 pub fn roundtrip_iterator_histories(ctx: &mut Ctx, spaces: Vec<CfgSpace>, per_space: u64, depth: u32) {
-    ctx.bound("iterator histories", format!("about {} built packets per configuration space: every iterator of the parsed packet driven through all call sequences of length <= {} over {{next, nth(0), nth(1), nth(2), nth(7), take(2).count()}} x 4 endings", per_space, depth));
+    ctx.bound("iterator histories", format!("about {} built packets per configuration space: every iterator of the parsed packet driven through all call sequences of length <= {} over {{next, nth(0), nth(1), nth(2), nth(7), take(2).count()}} x 10 endings, size_hint() after every call", per_space, depth));
     for sp in spaces {
         let stride = (sp.len / per_space).max(1);
         let n = sp.len / stride;
